@@ -47,7 +47,11 @@ def random_scenarios(rng, n, depth):
                 ops.append({"op": "upd", "k": k})
             else:
                 ops.append({"op": "rem", "k": k}); present.discard(kt)
-        out.append({"ops": ops, "keys": keys, "rl": [], "bits": bits})
+        nfl = sum(1 for o in ops if o["op"] == "flush")
+        # exact fill (half of the histories): the index file-size limit is set to the exact length the file has after the
+        # j-th flush, so the next flush finds the file exactly full - the roll-over rule decides by where a record STARTS
+        fill = rng.randrange(1, nfl) if nfl >= 2 and rng.random() < 0.5 else 0
+        out.append({"ops": ops, "keys": keys, "rl": [], "bits": bits, "fill": fill})
     return out
 
 
@@ -109,7 +113,7 @@ def run(pid):
             rep.cov.setdefault("histories_replayed_under_other_bit_sizes", 0)
             rep.cov["histories_replayed_under_other_bit_sizes"] += len(sub)
     # 3. random longer histories over larger alphabets
-    n, depth = (300, 40) if vlib.tier() == "quick" else (4000, 80)
+    n, depth = (800, 40) if vlib.tier() == "quick" else (6000, 80)
     rs = random_scenarios(rng, n, depth)
     rep.cov["samples"].append(rs[0]["ops"][:12])
     judge(rep, pid, rs, "rand")
